@@ -71,6 +71,7 @@ def to_cases(behs, rnd, max_crashes_per_workload):
             if len(cr) > 1:
                 rec["site2"], rec["hit2"] = cr[1]["site"], cr[1]["hit"]
             rec["rtrace"] = last.get("trace")
+            rec["ckf"] = last.get("ckf", [])
             partial.setdefault(key, {"w": ops, "crashes": [], "sites": SITES})["crashes"].append(rec)
     # a crash behaviour whose workload is also a full workload joins that case
     for key, c in list(partial.items()):
